@@ -147,3 +147,4 @@ pub mod proofs {
     );
 }
 
+
